@@ -71,6 +71,8 @@ let err_name = function
   | ErrNullDeref -> "null-dereference"
   | ErrBadRange -> "bad-range"
   | ErrFuel -> "model-out-of-fuel"
+  | ErrRecursion -> "unbounded-recursion"
+  | ErrDangling -> "dangling-pointer"
 
 let print_obs (r : ret) (v : view) : unit =
   let b = Buffer.create 256 in
@@ -127,6 +129,7 @@ let parse_op (toks : Stdlib.String.t list) : op option =
   | ["getcaret"] -> Some OpGetCaret
   | ["getstatus"] -> Some OpGetStatus
   | ["opt"; name; v] -> Some (OpSetOption (bytes_of_string name, v <> "0"))
+  | ["tick"; ms] -> Some (OpTick (n_of_dec ms))
   | _ -> None
 
 (* ---- mode wf: the C02 oracle (Spec.wf_viewb, extracted) on observation lines ---- *)
@@ -215,10 +218,12 @@ let mode_model (dlog : bool) =
       if String.length line = 0 || line.[0] = '#' then ()
       else match split_ws line with
         | ["schema"; id] ->
-          if List.mem id ["synth_express"; "synth_fluid"; "synth_punct_express"; "synth_punct_fluid"; "synth_kb_express"; "synth_kb_fluid"] then begin
+          if List.mem id ["synth_express"; "synth_fluid"; "synth_punct_express"; "synth_punct_fluid"; "synth_kb_express"; "synth_kb_fluid";
+                          "synth_ascii_express"; "synth_ascii_fluid"] then begin
             cfg := (if id = "synth_express" || id = "synth_fluid" then synth_cfg (id = "synth_fluid") dlog
                     else if id = "synth_punct_express" || id = "synth_punct_fluid" then synth_punct_cfg (id = "synth_punct_fluid") dlog
-                    else synth_kb_cfg (id = "synth_kb_fluid") dlog);
+                    else if id = "synth_kb_express" || id = "synth_kb_fluid" then synth_kb_cfg (id = "synth_kb_fluid") dlog
+                    else synth_ascii_cfg (id = "synth_ascii_fluid") dlog);
             st := Some (init_state !cfg);
             print_endline ("== " ^ id)
           end else begin
